@@ -135,6 +135,11 @@ impl CodeCache {
       let (next_op, length, _cycles) = decode(code_slice);
       index += length;
       block_ended = next_op.is_block_end();
+      // A block that starts in the fixed bank is cached under that bank alone,
+      // so it must not run on into the switchable bank at 0x4000.
+      if ip < 0x4000 && index >= 0x4000 {
+        block_ended = true;
+      }
       let translated = self.exec_memory.get_memory_area_mut();
       let written = emitter.encode_op(next_op, length, &mut translated[write_cursor..]);
       write_cursor += written;
